@@ -267,4 +267,66 @@ def shiftRounds : List TRound → List ERound
     `writes_teared` (assigned at the start of every `handle_events`, never read) -/
 def norm (s : St) : St := { s with trC := none, trU := none, writesTeared := false }
 
+/-! ### the hand-off of an accepted connection to a remote worker
+
+    proxy/core/work/delegate.py   delegate_work_to_pool:
+        with work_lock:
+            work_queue.send(addr)                       -- unless --unix-socket-path
+            send_handle(work_queue, conn.fileno(), worker_pid)
+            conn.close()
+    proxy/core/work/fd/remote.py  RemoteFdExecutor.receive_from_work_queue:
+        addr = self.work_queue.recv(); fileno = recv_handle(self.work_queue); self.work(fileno, addr, None)
+
+  Several acceptors (one delegate thread per connection each) share the pipe of
+  one worker.  The pipe is a FIFO of tagged items; a *schedule* is the list of
+  thread ids in the order in which the scheduler lets them take their next step
+  (a step of a thread waiting for a held lock is a no-op). -/
+
+inductive Item | addr (i : Nat) | fd (i : Nat)
+  deriving DecidableEq, Repr
+
+inductive HOp | acquire | sendAddr | sendFd | release
+  deriving DecidableEq, Repr
+
+/-- `delegate_work_to_pool` as it is: both sends under one acquisition of the worker lock -/
+def lockedProg : List HOp := [.acquire, .sendAddr, .sendFd, .release]
+
+/-- the variant "hold the lock only while the descriptor is in flight" -/
+def addrOutsideProg : List HOp := [.sendAddr, .acquire, .sendFd, .release]
+
+structure HS where
+  pipe : List Item := []
+  /-- thread holding `work_lock` -/
+  lock : Option Nat := none
+  /-- program counter of every delegate thread -/
+  pc : Nat → Nat := fun _ => 0
+  /-- ghost: order of lock acquisitions -/
+  acq : List Nat := []
+
+def upd (f : Nat → Nat) (i v : Nat) : Nat → Nat := fun j => if j = i then v else f j
+
+/-- thread `i` takes its next step -/
+def hstep (prog : List HOp) (s : HS) (i : Nat) : HS :=
+  match prog[s.pc i]? with
+  | none => s
+  | some .acquire =>
+    if s.lock.isNone then { s with lock := some i, pc := upd s.pc i (s.pc i + 1), acq := s.acq ++ [i] }
+    else s
+  | some .sendAddr => { s with pipe := s.pipe ++ [.addr i], pc := upd s.pc i (s.pc i + 1) }
+  | some .sendFd => { s with pipe := s.pipe ++ [.fd i], pc := upd s.pc i (s.pc i + 1) }
+  | some .release => { s with lock := none, pc := upd s.pc i (s.pc i + 1) }
+
+def hrun (prog : List HOp) (sched : List Nat) : HS := sched.foldl (hstep prog) {}
+
+/-- what one intact hand-off puts on the pipe -/
+def pairOf (i : Nat) : List Item := [.addr i, .fd i]
+
+/-- the worker's receive loop on the pipe content: `recv()` must find an address,
+    `recv_handle()` a descriptor; anything else is an exception (`recv_handle` on
+    pickled address bytes raises `RuntimeError`) or a read that never completes -/
+def recvAll : List Item → Option (List (Nat × Nat))
+  | [] => some []
+  | .addr a :: .fd b :: rest => (recvAll rest).map ((a, b) :: ·)
+  | _ => none
+
 end Px.Modes
